@@ -43,13 +43,27 @@ Definition olbeqb (a b : option (list bstr)) : bool :=
   | _, _ => false
   end.
 
-(* may two uses name the same file?  only the same use of equivalent URIs; by construction also
-   the rsync module directory and the collector copy of the module URI itself (empty path) *)
+Definition same_family (a b : label) : bool :=
+  match a, b with
+  | LTaRsync _, LTaRsync _ | LTaHttps _, LTaHttps _ | LModule _, LModule _ | LFile _, LFile _
+  | LRepo _, LRepo _ | LArchive _, LArchive _ | LPoint _ _, LPoint _ _ => true
+  | _, _ => false
+  end.
+
+(* two uses of the same kind may name the same file only for equivalent URIs
+   (module directories: URIs of the same module) *)
 Definition share_ok (a b : label) : bool :=
   match a, b with
   | LTaRsync x, LTaRsync y | LTaHttps x, LTaHttps y | LModule x, LModule y | LFile x, LFile y
   | LRepo x, LRepo y | LArchive x, LArchive y => lbeqb x y
   | LPoint r x, LPoint s y => olbeqb r s && lbeqb x y
+  | _, _ => false
+  end.
+
+(* uses of different kinds never name the same file, except, by construction, the rsync module
+   directory and the collector copy of the module URI itself (empty path) *)
+Definition cross_ok (a b : label) : bool :=
+  match a, b with
   | LModule x, LFile y | LFile y, LModule x => lbeqb (x ++ [[]]) y
   | _, _ => false
   end.
@@ -137,10 +151,20 @@ Definition dumpnames_model (base : bstr) (hs : list bstr) : list (option bstr) :
 Definition confined_okb (cache : bstr) (ps : list (option bstr)) : bool :=
   forallb (fun p => match p with Some p => underb cache p | None => true end) ps.
 
-(* two uses name the same file only if share_ok *)
+(* two uses of the same kind name the same file only if share_ok *)
+Definition entries_fid (ls : list (option label)) (ps : list (option bstr)) :=
+  flat_map (fun x => match x with (Some l, Some p) => [(l, fid p)] | _ => [] end) (combine ls ps).
+
 Definition distinct_okb (ls : list (option label)) (ps : list (option bstr)) : bool :=
-  let es := flat_map (fun x => match x with (Some l, Some p) => [(l, fid p)] | _ => [] end) (combine ls ps) in
-  forallb (fun a => forallb (fun b => if fid_eqb (snd a) (snd b) then share_ok (fst a) (fst b) else true) es) es.
+  let es := entries_fid ls ps in
+  forallb (fun a => forallb (fun b =>
+    if fid_eqb (snd a) (snd b) && same_family (fst a) (fst b) then share_ok (fst a) (fst b) else true) es) es.
+
+(* uses of different kinds: checked on the implementation's paths, not covered by a theorem *)
+Definition cross_okb (ls : list (option label)) (ps : list (option bstr)) : bool :=
+  let es := entries_fid ls ps in
+  forallb (fun a => forallb (fun b =>
+    if fid_eqb (snd a) (snd b) && negb (same_family (fst a) (fst b)) then cross_ok (fst a) (fst b) else true) es) es.
 
 (* registry names: different repositories (the rsync repository included) get different
    directories, all below the dump directory *)
@@ -197,13 +221,15 @@ Definition cache_okb (cache : bstr) : bool :=
   && negb (ends_with_slash cache).
 
 (* 0 agree + property; 1 property holds on the implementation's paths but the model differs;
-   2 property fails on the implementation's paths; 3 known finding class: the dump registry gives two
+   2 property fails on the implementation's paths (spec_okb, or two uses of different kinds share a
+   file: cross_okb); 3 known finding class: the dump registry gives two
    repositories the same directory or leaves the dump directory; 9 precondition *)
 Definition check_case (c : case) : N :=
   if negb (cache_okb (c_cache c) && forallb bytes_okb (c_rs c) && forallb bytes_okb (c_hs c)) then 9
   else
     let m := model_all (c_cache c) (c_rs c) (c_hs c) in
     if negb (spec_with (labels_of (fst m)) c) then 2
+    else if negb (cross_okb (labels_of (fst m)) (c_paths c)) then 2
     else if negb (dump_okb (push (c_cache c) (bytes_of "dump")) (c_hs c) (c_dumpnames c)) then 3
     else if olist_eqb (map (option_map snd) (fst m)) (c_paths c)
             && olist_eqb (snd m) (c_tafiles c)
